@@ -2024,12 +2024,14 @@ void ReadNames(fmt::CStringRef filename, fmt::StringRef data,
   const char *start = data.data();
   const char *end = start + data.size();
   for (const char *ptr = start; ptr != end; ++ptr) {
-    if (*ptr == '\r') in_win_newline = true;
     if (*ptr == '\n') {
       handler.OnName(fmt::StringRef(start, ptr - start - in_win_newline));
       start = ptr + 1;
       ++line;
       in_win_newline = false;
+    } else {
+      // Only a '\r' immediately before '\n' belongs to the line end.
+      in_win_newline = (*ptr == '\r');
     }
   }
   if (start != end) {
